@@ -137,12 +137,17 @@ def compute_helicity_angles(
                         if k in sub_momenta_ids
                     }
 
-                    # register current angle variables
+                    # register current angle variables (named after the helicity state)
+                    register_angles = True
                     if is_opposite_helicity_state(topology, state_id):
                         state_id = get_sibling_state_id(topology, state_id)
-                    phi, theta = get_helicity_angle_symbols(topology, state_id)
-                    helicity_angles[phi] = Phi(four_momentum)
-                    helicity_angles[theta] = Theta(four_momentum)
+                        # if the helicity state decays as well, its own momentum
+                        # defines the angles (registered in its own iteration)
+                        register_angles = topology.edges[state_id].ending_node_id is None
+                    if register_angles:
+                        phi, theta = get_helicity_angle_symbols(topology, state_id)
+                        helicity_angles[phi] = Phi(four_momentum)
+                        helicity_angles[theta] = Theta(four_momentum)
 
                     # call next recursion
                     angles = __recursive_helicity_angles(
